@@ -102,8 +102,11 @@ def main():
             mods[direction + '.' + state] = importlib.import_module(
                 'minecraft.networking.packets.%s.%s' % (direction, state))
 
-    def evaluate(pv):
-        ctx = ConnectionContext(protocol_version=pv)
+    def evaluate(pv, ctx=None):
+        if ctx is None:
+            ctx = ConnectionContext(protocol_version=pv)
+        else:
+            ctx.protocol_version = pv
         res = {'tables': {}, 'classes': {}}
         for tname, mod in mods.items():
             try:
@@ -150,6 +153,21 @@ def main():
             fail('table functions are not deterministic at protocol %d' % pv)
         per.append(a)
     out['per_version'] = per
+    # the tables are functions of the version alone: a second sweep newest-first, and a third one alternating between both
+    # ends of the list, both on ONE context object whose protocol_version is reassigned; evaluations that differ from the
+    # first sweep are passed on (the checks look for the property failing in them)
+    alt = []
+    shared = ConnectionContext(protocol_version=known[0])
+    n = len(known)
+    zig = [j for i in range((n + 1) // 2) for j in ([i, n - 1 - i] if i != n - 1 - i else [i])]
+    for order_name, order in (('newest-first', list(range(n - 1, -1, -1))), ('alternating-ends', zig)):
+        prev = None
+        for i in order:
+            a = evaluate(known[i], shared)
+            if a != per[i]:
+                alt.append({'index': i, 'proto': known[i], 'order': order_name, 'previous': prev, 'evaluation': a})
+            prev = known[i]
+    out['per_version_alt'] = alt[:40]
 
     # ---- Position layout per version, by probing the encoder with triples that distinguish the layouts
     def enc_pos(pv, xyz):
